@@ -27,8 +27,16 @@ func encodeFunc(w *World, cs *Contracts, mods *ModAnalysis, name string) *FuncRe
 	}
 	var pre []*Comp
 	var e *Enc
+	var prevDT []string
+	var prevSeen map[string]bool
 	for pass := 1; pass <= 3; pass++ {
 		e = newEnc(w, cs, mods)
+		if prevDT != nil {
+			e.dtHdr = append(e.dtHdr, prevDT...)
+			for k := range prevSeen {
+				e.dtSeen[k] = true
+			}
+		}
 		for _, c := range pre {
 			if c.Kind == "local" {
 				continue
@@ -57,6 +65,8 @@ func encodeFunc(w *World, cs *Contracts, mods *ModAnalysis, name string) *FuncRe
 		for _, cn := range e.compOrder {
 			pre = append(pre, e.comps[cn])
 		}
+		prevDT = append([]string{}, e.dtHdr...)
+		prevSeen = e.dtSeen
 	}
 	res.Enc = e
 	res.Obls = e.obls
@@ -152,6 +162,12 @@ func (e *Enc) encodeTop(fn *ssa.Function, fc *FuncContract, name string) {
 				continue
 			}
 			if _, isG := e.cs.Ghosts[id.Name]; !isG {
+				continue
+			}
+			if _, tracked := e.cs.Tracks[id.Name]; tracked {
+				// a ghost that abstracts real state: the effect clause bounds how callers see it
+				// change (an assumption about the callees, listed) and is not a definitional update
+				e.note("assumed bound on how " + name + " changes the abstracted state " + id.Name + " (ghost-effect on a tracked ghost; to be discharged by the frame of the state's own functions)")
 				continue
 			}
 			gc := e.ghostComp(id.Name)
